@@ -35,7 +35,7 @@ def shrink_line(ctx, l, part):
 
 def run(ctx):
     return core.simple_check(
-        ctx, jobs,
+        ctx, jobs, distribution=core.field_distribution(("Q ", "QC "), ["shape", "n", "threads", "ret", "which", "shift"], numeric=("n",)),
         rule="arrays of u32 keys through the cfg-gated facade of par_quicksort: lengths 0..9000 (thorough 40000) plus 20k/50k/100k/300k, ten arrangements (random, "
              "sorted, reversed, organ pipe, few keys, all equal, sawtooth, mostly sorted, median-of-three killer, ascending runs) plus McIlroy's killer adversary run "
              "against the real sort (its frozen keys drive the sort into break_patterns and the heapsort fallback; lengths 30..3000, thorough 12000), comparators (a>>s)<(b>>s) with "
